@@ -643,8 +643,191 @@ def run_plugin(case):
     return obs
 
 
+# ----------------------------------------------------------------------------- GROMACS
+def g96_text(natoms, d, L, vx):
+    pos = "".join(f"    1 H1    H1    {i + 1:5d}{(d if i == 1 else 0.0):15.9f}{0.0:15.9f}{0.0:15.9f}\n" for i in range(natoms))
+    vel = "".join(f"    1 H1    H1    {i + 1:5d}{(vx if i == 1 else 0.0):15.9f}{0.0:15.9f}{0.0:15.9f}\n" for i in range(natoms))
+    return f"TITLE\nfake\nEND\nPOSITION\n{pos}END\nVELOCITY\n{vel}END\nBOX\n{L:15.9f}{L:15.9f}{L:15.9f}\nEND\n"
+
+
+def parse_g96(path):
+    sec, rows = None, {}
+    for ln in open(path).read().split("\n"):
+        t = ln.strip()
+        if t in ("POSITION", "VELOCITY", "BOX", "TITLE"):
+            sec = t
+            rows[sec] = []
+        elif t == "END":
+            sec = None
+        elif sec and t:
+            rows[sec].append(ln)
+    px = [float(r[24:39]) for r in rows["POSITION"]]
+    vx = [float(r[24:39]) for r in rows.get("VELOCITY", [])] or [0.0] * len(px)
+    L = float(rows["BOX"][0].split()[0])
+    return (px[1] - px[0], L, vx[1])
+
+
+def trr_bytes(natoms, double, step, d, L, vx):
+    import struct
+    fs, fc = (8, "d") if double else (4, "f")
+    sizes = [0, 0, 9 * fs, 0, 0, 0, 0, 3 * natoms * fs, 3 * natoms * fs, 0]
+    h = struct.pack(">1i", 1993) + struct.pack(">2i", 13, 12) + struct.pack(">12s", b"GMX_trn_file")
+    h += struct.pack(">13i", *sizes, natoms, step, 0) + struct.pack(">2" + fc, step * 0.5, 0.0)
+    box = [L, 0, 0, 0, L, 0, 0, 0, L]
+    x = [0.0] * (3 * natoms)
+    v = [0.0] * (3 * natoms)
+    x[3] = d
+    v[3] = vx
+    return h + struct.pack(">9" + fc, *box) + struct.pack(f">{3 * natoms}{fc}", *x) + struct.pack(f">{3 * natoms}{fc}", *v)
+
+
+def parse_trr(path):
+    """own TRR parser (big endian, as written by the fake): -> [(d, L, vx)]"""
+    import struct
+    out = []
+    data = open(path, "rb").read()
+    o = 0
+    while o + 84 <= len(data):
+        magic, = struct.unpack_from(">i", data, o)
+        assert magic == 1993
+        sizes = struct.unpack_from(">13i", data, o + 24)
+        box_size, x_size, v_size, natoms = sizes[2], sizes[7], sizes[8], sizes[10]
+        fs = box_size // 9
+        fc = "d" if fs == 8 else "f"
+        o += 24 + 52 + 2 * fs
+        if o + box_size + x_size + v_size > len(data):
+            break
+        box = struct.unpack_from(">9" + fc, data, o)
+        x = struct.unpack_from(f">{3 * natoms}{fc}", data, o + box_size)
+        v = struct.unpack_from(f">{3 * natoms}{fc}", data, o + box_size + x_size)
+        out.append((x[3] - x[0], box[0], v[3]))
+        o += box_size + x_size + v_size
+    return out
+
+
+def _gmx_engine(sub, natoms):
+    import importlib.util  # noqa: F401
+    from fake_md import ctl
+    key = ("gmx", sub, natoms)
+    if key in _CACHE:
+        return _CACHE[key]
+    from infretis.classes.engines.gromacs import GromacsEngine
+    inp = os.path.join(_workroot(), f"gromacs_input_{sub}_{natoms}")
+    os.mkdir(inp)
+    src = "/repo/examples/gromacs/H2/gromacs_input"
+    shutil.copy(os.path.join(src, "grompp.mdp"), inp)
+    shutil.copy(os.path.join(src, "topol.top"), inp)
+    with open(os.path.join(inp, "conf.g96"), "w") as fh:
+        fh.write(g96_text(natoms, 1.0, 3.0, 0.0))
+    eng = GromacsEngine(ctl.fake_cmd("fake_gmx.py"), inp, 0.5, sub, 300)
+    eng.mdrun = ctl.fake_cmd("fake_gmx.py") + " mdrun -s {} -deffnm {} -c {}"
+    eng.order_function = _probe_order()
+    _CACHE[key] = eng
+    return eng
+
+
+def gmx_need0(natoms, double):
+    fsz = len(trr_bytes(natoms, double, 0, 1.0, 3.0, 0.0))
+    return -(-1000 // fsz)
+
+
+def run_gmx(case):
+    """case: frames=[(d, L, vx)], sched tick-level [(file, vis, 0, alive)], code, maxlen, left, right, rev, vel_rev0, sub,
+    natoms, double, start"""
+    import importlib.util  # noqa: F401
+    from fake_md import ctl
+    from infretis.classes.engines import gromacs as mod
+    from infretis.classes.path import Path
+    from infretis.classes.system import System
+    ctl.install()
+    frames = case["frames"]
+    sub, natoms, double = case.get("sub", 1), case.get("natoms", 2), bool(case.get("double", False))
+    work = _newdir()
+    obs = {"raised": "ok"}
+    try:
+        eng = _gmx_engine(sub, natoms)
+        blobs = [trr_bytes(natoms, double, k * sub, d, L, vx) for k, (d, L, vx) in enumerate(frames)]
+        cuts = list(itertools.accumulate([0] + [len(b) for b in blobs]))
+        files = {"trr": b"".join(blobs).hex(), "edr": ""}
+        d0, L0, v0 = case.get("start", frames[0] if frames else (1.0, 16.0, 0.0))
+        init = os.path.join(work, "start.g96")
+        with open(init, "w") as fh:
+            fh.write(g96_text(natoms, d0, L0, v0))
+        with open(os.path.join(work, "fake_nframes.txt"), "w") as fh:
+            fh.write(str(len(frames) + 1))
+        nfr = len(frames)
+        sched = [dict(file=bool(f), bytes={"trr": cuts[min(int(v), nfr)]}, alive=bool(a), src=[int(bool(f)), int(v), 0, int(bool(a))])
+                 for (f, v, _v2, a) in case["sched"]]
+        c = ctl.FakeCtl(work, files, {}, sched, case["code"])
+        c.only = "mdrun"
+        eng.exe_dir = work
+        system = System()
+        system.config = (init, None) if case.get("cfg_none") else (init, 0)
+        system.vel_rev = bool(case.get("vel_rev0", False))
+        system.order = [d0, v0]
+        path = Path(maxlen=case["maxlen"])
+        ens = {"interfaces": (case["left"], (case["left"] + case["right"]) / 2, case["right"]), "ens_name": "001"}
+        old_sleep = mod.sleep
+        mod.sleep = c.sleep
+        ctl.FakeCtl.active = c
+        hook = sys.unraisablehook
+        sys.unraisablehook = lambda *a: None      # GromacsRunner.__del__ → stop() → close() complains about `fileh`
+        try:
+            ok, status = eng.propagate(path, ens, system, reverse=bool(case["rev"]))
+            obs["success"] = bool(ok)
+            obs["status"] = _status(status)
+        except ctl.HarnessHang:
+            raise
+        except Exception as e:  # noqa: BLE001
+            obs["raised"] = "err:attr" if isinstance(e, AttributeError) else err_kind(e)
+            obs["exc"] = f"{type(e).__name__}: {str(e)[:200]}"
+        finally:
+            ctl.FakeCtl.active = None
+            mod.sleep = old_sleep
+            import gc
+            gc.collect()
+            sys.unraisablehook = hook
+        obs["proc"] = c.finish()
+        obs["ticks"] = c.t
+        obs["realised"] = [r if r is not None else [0, 0, 0, 1] for r in c.realised]
+        obs["returncode"] = None if c.popen is None else c.popen.returncode
+        obs["tick_kinds"] = "".join(k[0] for k in c.log)
+        ents, rec, traj_name = [], [], None
+        for pp in path.phasepoints:
+            fn, idx = pp.config
+            traj_name = fn
+            ents.append({"file": os.path.basename(fn), "idx": idx, "order": [float(x) for x in pp.order],
+                         "vel_rev": bool(pp.vel_rev)})
+        obs["path"] = ents
+        if traj_name and os.path.exists(traj_name):
+            fr = parse_trr(traj_name)
+            for e in ents:
+                if 0 <= e["idx"] < len(fr):
+                    d, L, vx = fr[e["idx"]]
+                    rec.append({"d": d, "L": L, "vx": vx, "order0": pbc(d, L)})
+                else:
+                    rec.append(None)
+        obs["recomputed"] = rec
+        seen = os.path.join(work, "fake_seen.txt")
+        obs["seen"] = open(seen).read() if os.path.exists(seen) else ""
+        obs["start_seen"] = None
+        for ln in obs["seen"].split("\n"):
+            if ln.startswith("conf=") and os.path.exists(ln[5:]):
+                obs["start_seen"] = list(parse_g96(ln[5:]))
+        obs["seen"] = obs["seen"].split("\n")[0]
+    except ctl.HarnessHang as e:
+        obs["harness_error"] = str(e)
+    except Exception:  # noqa: BLE001
+        obs["harness_error"] = traceback.format_exc()[-1500:]
+    finally:
+        shutil.rmtree(work, ignore_errors=True)
+    return obs
+
+
 def run_any(case):
     kind = case["engine"]
+    if kind == "gromacs":
+        return run_gmx(case)
     if kind in ("lammps", "cp2k"):
         return run_ext(case)
     if kind in ("turtle", "ase"):
@@ -732,7 +915,7 @@ def check_ext_property(ctx, case, obs):
         d, L, vx = frames[k]
         if eng == "cp2k":
             L = case.get("start", frames[0])[1]       # CP2K: constant box (documented NVT-only limitation)
-        if (r["d"], r["vx"]) != (d, vx) or (eng == "lammps" and r["L"] != L):
+        if (r["d"], r["vx"]) != (d, vx) or (eng in ("lammps", "gromacs") and r["L"] != L):
             ctx.fail(f"C12:{eng}:file-frame-differs", f"file frame {k} = {r}, program wrote {(d, L, vx)}", rep)
             break
         own = pbc(r["d"], r["L"] if r["L"] is not None else L)
@@ -920,6 +1103,61 @@ def gen_ext_cases(ctx):
         if not c["frames"] and "start" not in c:
             c["start"] = (1.0, 16.0, 1.0)
     return cases
+
+
+def gen_gmx_cases(ctx):
+    """GROMACS through fake gmx: tick-level schedules (exhaustive for ≤ 2 frames with a 40-atom frame, i.e. first read
+    possible with one frame; sampled for the 2-atom frames where the reader first waits for 1000 bytes), both
+    precisions, forward/backward, varying boxes, exit codes incl. signals, limits around the crossing frame"""
+    rng = ctx.rng
+    cases = []
+    H = 5 if ctx.quick else 7
+    k = 0
+    for n in (0, 1, 2):
+        for times in mono_tuples(n + 2, H):
+            c, arr, x = times[0], list(times[1:-1]), times[-1]
+            k += 1
+            code = (0, 3, -9, -15, 0, -11)[k % 6]
+            fr = lammps_frames(n, "grow", n - 1)
+            cases.append(dict(engine="gromacs", frames=fr, sched=sched_from_times(c, arr, x), code=code, maxlen=(n, n + 1, 5)[k % 3] or 1,
+                              left=0.5, right=8.0, rev=k % 2, vel_rev0=bool((k // 2) % 2), sub=1, natoms=40, double=bool(k % 4 == 0),
+                              start=(1.0, 16.0, 1.0) if n == 0 else None, tag="gmx-tick-exh"))
+    # mdrun ends without ever creating its output files
+    for j in (0, 1, 2, 3):
+        for code in (0, 3, -9):
+            cases.append(dict(engine="gromacs", frames=[], sched=[(0, 0, 0, 1)] * j + [(0, 0, 0, 0)], code=code, maxlen=3, left=0.5,
+                              right=8.0, rev=0, sub=1, natoms=2, double=False, start=(1.0, 16.0, 1.0), tag="gmx-no-file"))
+    for _ in range(120 if ctx.quick else 1500):
+        natoms, double = rng.choice(((2, False), (2, True), (40, False), (40, True), (30, False)))
+        n = rng.randint(1, 8)
+        fr = []
+        for j in range(n):
+            d = rng.choice((0.25, 0.5, 1.0, 2.0, 7.75, 8.0, 8.25, 9.0, 11.0)) if rng.random() < 0.5 else 1.0 + 0.25 * j
+            L = rng.choice((12.0, 16.0, 20.0, 32.0, 64.0))
+            if abs(d / L - round(d / L)) == 0.5:
+                L = 64.0
+            fr.append((d, L, float(rng.randint(-3, 3))))
+        times = sorted(rng.randint(0, 3 * n + 6) for _ in range(n + 2))
+        cases.append(dict(engine="gromacs", frames=fr, sched=sched_from_times(times[0], times[1:-1], times[-1]),
+                          code=rng.choice((0, 0, 0, 1, -9, -11, -15)), maxlen=rng.randint(1, n + 1), left=0.5, right=8.0,
+                          rev=rng.choice((0, 1)), vel_rev0=rng.choice((False, True)), sub=rng.choice((1, 2, 3)),
+                          natoms=natoms, double=double, tag="gmx-random"))
+    for c in cases:
+        if c.get("start") is None:
+            c.pop("start", None)
+    return cases
+
+
+def gmx_line(case, realised):
+    frames = case["frames"]
+    start = case.get("start", frames[0] if frames else (1.0, 16.0, 0.0))
+    ds = sorted({f[0] for f in frames})
+    Ls = sorted({f[1] for f in frames} | {start[1]})
+    fr = [(ds.index(d), Ls.index(L), sc(vx)) for (d, L, vx) in frames]
+    tab = [(ci, bi, sc(pbc(d, L))) for ci, d in enumerate(ds) for bi, L in enumerate(Ls)]
+    ws = " ".join([str(len(realised))] + [f"{a} {b} {c} {d}" for a, b, c, d in realised])
+    return (f"gmxext {sc(case['left'])} {sc(case['right'])} {case['maxlen']} {int(bool(case['rev']))} {case['code']} "
+            f"{gmx_need0(case.get('natoms', 2), bool(case.get('double', False)))} 400 {tri(fr)} {ws} {tri(tab)}")
 
 
 def gen_inproc_cases(ctx):
@@ -1154,6 +1392,34 @@ def _run(ctx):
                      "one variant consistently")
     ctx.extra["lammps_variant_consistent_with"] = sorted(consistent)
     ctx.extra["lammps_wrong_box_cases"] = wrong_box_seen
+    # ================================================================= GROMACS (fake gmx)
+    gcases = gen_gmx_cases(ctx)
+    gobs = _map_cases(ctx, gcases)
+    for case, obs in zip(gcases, gobs):
+        if "harness_error" in obs:
+            _infra(case, obs)
+    gans = ctx.driver([gmx_line(c, o["realised"]) for c, o in zip(gcases, gobs)]) if (have_model and gcases) else []
+    for k, (case, obs) in enumerate(zip(gcases, gobs)):
+        ctx.count(1, engine="gromacs")
+        ctx.hit(f"gromacs:{case['tag']}")
+        ctx.hit(f"gromacs:raised={obs['raised']}")
+        if obs.get("path"):
+            ctx.distinct(("gromacs", tuple(case["frames"]), tuple(map(tuple, obs["realised"])), case["maxlen"], case["rev"],
+                          case["code"], case["natoms"], case["double"]))
+        check_ext_property(ctx, case, obs)
+        if have_model:
+            m = parse_model(gans[k])
+            cv, mv = code_view(obs), model_view(m)
+            same = (cv == mv and obs["ticks"] == m["ticks"] and (obs["proc"] == "stopped") == m["dead"]
+                    and (obs["returncode"] is None or not m["dead"]
+                         or obs["returncode"] == (-15 if m["killed"] else case["code"])))
+            if not same:
+                ctx.disagree({"engine": "gromacs", "case": case, "realised": obs["realised"]},
+                             {**cv, "ticks": obs["ticks"], "proc": obs["proc"], "returncode": obs["returncode"]},
+                             {**mv, "ticks": m["ticks"], "dead": m["dead"], "killed": m["killed"]})
+        if k % 211 == 0:
+            ctx.sample({"engine": "gromacs", "case": {q: case[q] for q in ("frames", "rev", "code", "maxlen", "natoms", "double")},
+                        "realised_schedule": obs["realised"], "result": code_view(obs)})
     # ================================================================= in-process engines
     icases = gen_inproc_cases(ctx)
     iobs = [run_any(c) for c in icases]
@@ -1268,7 +1534,8 @@ def _run(ctx):
         "output/exit events of the external program happen at the engine's sleep()/poll() calls (every observable "
         "interleaving of one poll/one read is reachable this way); torn frames are C13's subject and not generated here",
         "CP2K: the box is constant (the engine reads no box from CP2K output; documented NVT-only limitation)",
-        "GROMACS: loop modelled (gmxRun) but NOT tied: no fake gmx (TRR/edr writer) was built",
+        "GROMACS: tied through fake gmx (grompp/energy stubs, mdrun streaming TRR, both precisions) at whole-frame "
+        "granularity; torn TRR frames are C13's subject; the .edr content is a stub (energies are not checked)",
         "TurtleMDEngine is run with a seed-tolerant velocity-Verlet integrator class (the engine passes seed= to every integrator)",
     ]
 
@@ -1292,7 +1559,7 @@ def replay(ctx, obj):
         obs = run_any(case)
         n0 = len(ctx.fails)
         rep = {"case": case, "observed": obs}
-        if case["engine"] in ("lammps", "cp2k"):
+        if case["engine"] in ("lammps", "cp2k", "gromacs"):
             check_ext_property(ctx, case, obs)
         elif case["engine"] in ("turtle", "ase"):
             check_inproc_property(ctx, case, obs)
